@@ -95,7 +95,13 @@ Definition strict_members (sv : json -> ty -> sres) (zr : ty -> gval) (fs : list
       else SOk (GStruct (combine (map (fun f => f_name f) fs) vals))
   end.
 
-Fixpoint strict_val (ctx : schemas) (j : json) (t : ty) {struct j} : sres :=
+(* where the raw input of "strict_unmarshal_field_type" comes from: fields[...], partialArray[i], partialMap[key].
+   The template declares `partialArray` / `partialMap` anew at every nesting level and only then reads its
+   input: when the input is itself `partialArray[i]` (resp. `partialMap[key]`) it reads the NEW, empty
+   variable: index out of range (resp. json.Unmarshal(nil): error, `return err`). *)
+Inductive rawsrc := RField | RElem | RVal.
+
+Fixpoint strict_val (ctx : schemas) (src : rawsrc) (j : json) (t : ty) {struct j} : sres :=
   let std := match decode ctx j t with
              | DSet v => SOk v
              | DKeep => SOk (zero ctx t)
@@ -109,9 +115,10 @@ Fixpoint strict_val (ctx : schemas) (j : json) (t : ty) {struct j} : sres :=
       | TScalar _ _ _ _ | TEnum _ _ => std
       | TArray _ et =>
           if array_of_scalars ctx 8 pt then std else
+          match src with RElem => SPanic | _ =>
           match j with
           | JArr l =>
-              let rs := map (fun x => strict_val ctx x et) l in
+              let rs := map (fun x => strict_val ctx RElem x et) l in
               if (is_ref t && t_nullable t)%bool then
                 (* cog.ToPtr(append( *resource.F, result)) with resource.F still nil *)
                 match rs with
@@ -130,12 +137,14 @@ Fixpoint strict_val (ctx : schemas) (j : json) (t : ty) {struct j} : sres :=
           | JNull => SOk GNil
           | _ => SAbort
           end
+          end
       | TMap _ _ vt =>
           if map_of_scalars ctx 8 pt then std else
           let wrap := fun m : gval => if is_ptr t then GPtr m else m in
+          match src with RVal => SAbort | _ =>
           match j with
           | JObj ms =>
-              let rs := map (fun kv => strict_val ctx (snd kv) vt) ms in
+              let rs := map (fun kv => strict_val ctx RVal (snd kv) vt) ms in
               match seq_results rs [] false with
               | inl stop => stop
               | inr (vals, err) =>
@@ -145,6 +154,7 @@ Fixpoint strict_val (ctx : schemas) (j : json) (t : ty) {struct j} : sres :=
               end
           | JNull => SOk (wrap (GMap []))
           | _ => SAbort
+          end
           end
       | TStruct _ _ fs =>
           if negb (is_ref t) then SUnm "inline struct: the template has no case for it" else
@@ -177,7 +187,7 @@ Fixpoint strict_val (ctx : schemas) (j : json) (t : ty) {struct j} : sres :=
                         | Some f =>
                             match payload_type ctx (f_type f) with
                             | PTy (TStruct _ [] bfs) =>
-                                match strict_members (strict_val ctx) (zero ctx) bfs ms with
+                                match strict_members (strict_val ctx RField) (zero ctx) bfs ms with
                                 | SOk v => SOk (set_field fs (f_name f) (GPtr v))
                                 | SErrAcc _ => SAbort
                                 | x => x
@@ -191,8 +201,8 @@ Fixpoint strict_val (ctx : schemas) (j : json) (t : ty) {struct j} : sres :=
                 end
             | None, None =>
                 match j with
-                | JObj ms => strict_members (strict_val ctx) (zero ctx) fs ms
-                | JNull => strict_members (strict_val ctx) (zero ctx) fs []
+                | JObj ms => strict_members (strict_val ctx RField) (zero ctx) fs ms
+                | JNull => strict_members (strict_val ctx RField) (zero ctx) fs []
                 | _ => SAbort
                 end
             end in
@@ -207,7 +217,7 @@ Fixpoint strict_val (ctx : schemas) (j : json) (t : ty) {struct j} : sres :=
 
 (* new(T).UnmarshalJSONStrict(doc) for the struct object n of package p *)
 Definition strict_object (ctx : schemas) (p n : string) (j : json) : outcome gval :=
-  match strict_val ctx j (TRef attrs0 p n) with
+  match strict_val ctx RField j (TRef attrs0 p n) with
   | SOk v => GOk v
   | SErrAcc _ | SAbort => GErr
   | SPanic => GPanic
